@@ -218,6 +218,9 @@ func (r *Run) Finish() int {
 		fmt.Fprintln(os.Stderr, "cannot write evidence:", err)
 		return 2
 	}
+	// a per-tier copy, so that the record of the last thorough run survives later quick runs
+	os.MkdirAll(filepath.Join(root, "evidence", r.Tier), 0o755)
+	os.WriteFile(filepath.Join(root, "evidence", r.Tier, r.ID+".json"), append(b, '\n'), 0o644)
 
 	ids := make([]string, 0, len(r.known))
 	for id := range r.known {
